@@ -925,6 +925,10 @@ static void janet_thread_chan_cb(JanetEVGenericMessage msg) {
                 msg.argp = channel;
                 msg.argj = x;
                 janet_ev_post_event(vm, janet_thread_chan_cb, msg);
+            } else {
+                /* Nobody else is waiting: the value was taken out of the channel for a reader that is
+                 * gone, so put it back where it came from (still packed) instead of dropping it. */
+                janet_q_push_head(&channel->items, &x, sizeof(Janet));
             }
         } else {
             JanetChannelPending writer;
